@@ -100,7 +100,7 @@ const UNPRINTABLE_CLASSES = ["DateRuntype", "BigIntRuntype", "MapRuntype", "SetR
 export async function run(ctx) {
   const recPath = ctx.outPath ? ctx.outPath + ".records.jsonl" : null;
   const fd = recPath ? fs.openSync(recPath, "w") : null;
-  const nProgs = ctx.share(2400, 40000);
+  const nProgs = ctx.share(9600, 40000);
   let rid = 0;
   // programs kept from repaired defects (shard 0), then the random corpus
   const probePrograms = () => {
